@@ -16,6 +16,13 @@ func DeepDump(v any) string {
 	return sb.String()
 }
 
+// DeepDumpValue is DeepDump of an already reflected value (e.g. an unexported field)
+func DeepDumpValue(v reflect.Value) string {
+	var sb strings.Builder
+	dump(&sb, v, 0, map[uintptr]bool{})
+	return sb.String()
+}
+
 func dump(sb *strings.Builder, v reflect.Value, depth int, seen map[uintptr]bool) {
 	if depth > 40 {
 		sb.WriteString("<deep>")
